@@ -21,6 +21,11 @@ const (
 	TokenNil
 )
 
+// eof is returned by (*lexer).next at the end of the input. It must not
+// collide with any rune that can occur in a template (the token type EOF has
+// the value 1, which is a valid input byte).
+const eof rune = -1
+
 var (
 	tokenSpaceChars                = " \n\r\t"
 	tokenIdentifierChars           = "abcdefghijklmnopqrstuvwxyzABCDEFGHIJKLMNOPQRSTUVWXYZ_"
@@ -168,7 +173,7 @@ func (l *lexer) emit(t TokenType) {
 func (l *lexer) next() rune {
 	if l.pos >= len(l.input) {
 		l.width = 0
-		return EOF
+		return eof
 	}
 	r, w := utf8.DecodeRuneInString(l.input[l.pos:])
 	l.width = w
@@ -265,7 +270,7 @@ func (l *lexer) run() {
 
 				for {
 					switch l.peek() {
-					case EOF:
+					case eof:
 						l.errorf("Single-line comment not closed.")
 						return
 					case '\n':
@@ -305,7 +310,7 @@ func (l *lexer) run() {
 			l.line++
 			l.col = 0
 		}
-		if l.next() == EOF {
+		if l.next() == eof {
 			break
 		}
 	}
@@ -422,7 +427,7 @@ func (l *lexer) stateString() lexerStateFn {
 			default:
 				return l.errorf("Unknown escape sequence: \\%c", l.peek())
 			}
-		case EOF:
+		case eof:
 			return l.errorf("Unexpected EOF, string not closed.")
 		case '\n':
 			return l.errorf("Newline in string is not allowed.")
